@@ -375,14 +375,26 @@ fn show_gen(e: &GenElem, id: usize) -> String {
 }
 
 /// sectioning style: 0 = well sectioned (ph = most recent title), 1 = stale/random headings,
-/// 2 = no headings at all, 3 = well sectioned with a few perturbations
+/// 2 = no headings at all, 3 = well sectioned with a few perturbations,
+/// 4 = well sectioned with REPEATED title texts (a "Notes"/"Summary" heading in every chapter),
+/// 5 = every body element names the text of some title of the list, earlier OR LATER (forward
+///     references, also from the preamble), title texts repeated
 fn gen_elems(r: &mut Rng, n: usize, style: u64, kinds: &[char], long: bool) -> Vec<GenElem> {
     let mut out: Vec<GenElem> = vec![];
     let mut cur: Option<String> = None;
     let mut path: Vec<String> = vec![];
     for _ in 0..n {
-        let k = *r.pick(kinds);
+        let mut k = *r.pick(kinds);
+        if style >= 4 && k != 'T' && r.chance(1, 4) {
+            k = 'T';
+        }
         let mut e = gen_elem(r, k, long);
+        if k == 'T' && style >= 4 && r.chance(3, 4) {
+            let t = (*r.pick(&["Notes", "Notes", "Summary", "Chapter"])).to_string();
+            e.payload = hs(&t);
+            e.display = t.clone();
+            e.text = t;
+        }
         if k == 'T' {
             cur = Some(e.text.clone());
             if r.chance(1, 2) {
@@ -400,7 +412,7 @@ fn gen_elems(r: &mut Rng, n: usize, style: u64, kinds: &[char], long: bool) -> V
             e.hp = path.clone();
         } else {
             e.ph = match style {
-                0 => cur.clone(),
+                0 | 4 | 5 => cur.clone(),
                 1 => {
                     if r.chance(1, 4) {
                         None
@@ -420,6 +432,16 @@ fn gen_elems(r: &mut Rng, n: usize, style: u64, kinds: &[char], long: bool) -> V
             e.hp = if style == 2 { vec![] } else { path.clone() };
         }
         out.push(e);
+    }
+    if style == 5 {
+        let titles: Vec<String> = out.iter().filter(|e| e.kind == 'T').map(|e| e.text.clone()).collect();
+        if !titles.is_empty() {
+            for e in out.iter_mut() {
+                if e.kind != 'T' && r.chance(2, 3) {
+                    e.ph = Some(r.pick(&titles).clone());
+                }
+            }
+        }
     }
     out
 }
@@ -450,7 +472,7 @@ fn gen(r: &mut Rng, tier: Tier) -> Vec<Case> {
             1..=6 => 2 + r.below(5) as usize,
             _ => 5 + r.below(9) as usize,
         };
-        let style = r.below(4);
+        let style = r.below(6);
         let kinds = match r.below(3) {
             0 => &all_kinds,
             1 => &inline_kinds,
@@ -489,12 +511,32 @@ fn gen(r: &mut Rng, tier: Tier) -> Vec<Case> {
         let pair = costs.windows(2).any(|w| w[0] + w[1] <= max + 1);
         let nt = es.len() >= 2 && (over || pair);
         let ws = well_sectioned(&es);
+        let titles: Vec<(usize, &str)> =
+            es.iter().enumerate().filter(|(_, e)| e.kind == 'T').map(|(i, e)| (i, e.text.as_str())).collect();
+        let dup_title = titles.iter().any(|(i, t)| titles.iter().any(|(j, u)| j < i && u == t));
+        // a body element between two titles of the same text that names that text: the earlier
+        // title must get it (`active`, not `latest`, map)
+        let between_dups = es.iter().enumerate().any(|(k, e)| {
+            e.kind != 'T'
+                && e.ph.as_deref().map_or(false, |h| {
+                    titles.iter().any(|(i, t)| *i < k && *t == h) && titles.iter().any(|(j, t)| *j > k && *t == h)
+                })
+        });
+        let fwd_ref = es.iter().enumerate().any(|(k, e)| {
+            e.kind != 'T'
+                && e.ph.as_deref().map_or(false, |h| {
+                    !titles.iter().any(|(i, t)| *i < k && *t == h) && titles.iter().any(|(j, t)| *j > k && *t == h)
+                })
+        });
         let tags = format!(
-            "{} cnt-{} n{} {} {}{}{}",
+            "{} cnt-{} n{} {} {}{}{}{}{}{}",
             mode,
             cname,
             if es.len() <= 1 { "0-1" } else if es.len() <= 6 { "2-6" } else { "7+" },
             if ws { "wellsec" } else { "stale" },
+            if dup_title { "dup-title " } else { "" },
+            if between_dups { "between-dups " } else { "" },
+            if fwd_ref { "fwd-ref " } else { "" },
             if over { "over " } else { "" },
             if merge == 0 { "nomerge " } else { "" },
             if nt { "nt" } else { "" }
